@@ -82,7 +82,8 @@ func newHostWorld(t *testing.T) *hostWorld {
 	w := &hostWorld{t: t, hostKey: seedKey(7001), renterKey: seedKey(7002)}
 	network, genesis := testutil.V1Network()
 	w.node = testutil.NewHostNode(t, w.hostKey, network, genesis, log)
-	testutil.MineAndSync(t, w.node, w.node.Wallet.Address(), int(network.MaturityDelay+5))
+	// a few more matured block rewards than the reference tests use: renewals and formations each spend a confirmed output
+	testutil.MineAndSync(t, w.node, w.node.Wallet.Address(), int(network.MaturityDelay+12))
 
 	l2, err := net.Listen("tcp", "localhost:0")
 	if err != nil {
